@@ -63,7 +63,7 @@ func NewExchangeJSightSchema[T bytes.ByteKeeper](
 			// A TYPE directive without a name: the error is reported for that directive.
 			return nil
 		}
-		return es.JSchema.AddType(k, v)
+		return AddUserType(es.JSchema, k, v)
 	})
 	if err != nil {
 		return nil, err
